@@ -172,6 +172,10 @@ func (it *interp) joinStates(ins []*state) *state {
 		}
 	}
 	if len(out.ds) > it.K {
+		if len(out.ds) > it.maxJoin {
+			it.maxJoin = len(out.ds)
+		}
+		it.nMerges += len(out.ds) - it.K
 		out = it.reduce(out)
 	}
 	return out
@@ -181,31 +185,48 @@ func (it *interp) joinStates(ins []*state) *state {
 // the other side entails, and the value/memory representations on which both agree.
 func (it *interp) reduce(s *state) *state {
 	ds := append([]*disjunct(nil), s.ds...)
+	type pair struct{ a, b *disjunct }
+	scores := map[pair]int{}
+	sigs := map[*disjunct]string{}
+	sigOf := func(d *disjunct) string {
+		if sg, ok := sigs[d]; ok {
+			return sg
+		}
+		sg := nilSig(d)
+		sigs[d] = sg
+		return sg
+	}
+	score := func(x, y *disjunct) int {
+		if v, ok := scores[pair{x, y}]; ok {
+			return v
+		}
+		common := 0
+		small, big := x, y
+		if len(y.fkeys) < len(x.fkeys) {
+			small, big = y, x
+		}
+		for k := range small.fkeys {
+			if big.fkeys[k] {
+				common++
+			}
+		}
+		v := common*2 - len(x.fkeys) - len(y.fkeys)
+		if sigOf(x) != sigOf(y) {
+			v -= 100000 // never merge an error path with a success path if avoidable
+		}
+		scores[pair{x, y}] = v
+		return v
+	}
 	for len(ds) > it.K {
-		// merge the two disjuncts with the most similar fact sets (cheap heuristic: last two)
 		bi, bj, best := 0, 1, -1<<30
 		lim := len(ds)
-		if lim > 40 {
-			lim = 40
-		}
-		sigs := make([]string, lim)
-		for i := 0; i < lim; i++ {
-			sigs[i] = nilSig(ds[i])
+		if lim > 48 {
+			lim = 48
 		}
 		for i := 0; i < lim; i++ {
 			for j := i + 1; j < lim; j++ {
-				common := 0
-				if sigs[i] != sigs[j] {
-					common = -1000 // never merge an error path with a success path if avoidable
-				}
-				for k := range ds[i].fkeys {
-					if ds[j].fkeys[k] {
-						common++
-					}
-				}
-				score := common*2 - len(ds[i].fkeys) - len(ds[j].fkeys)
-				if score > best {
-					best, bi, bj = score, i, j
+				if sc := score(ds[i], ds[j]); sc > best {
+					best, bi, bj = sc, i, j
 				}
 			}
 		}
@@ -216,7 +237,8 @@ func (it *interp) reduce(s *state) *state {
 				nds = append(nds, d)
 			}
 		}
-		ds = append(nds, m)
+		// the merged disjunct goes to the front so that it takes part in the next comparisons
+		ds = append([]*disjunct{m}, nds...)
 	}
 	return &state{ds: ds}
 }
@@ -345,19 +367,34 @@ func (it *interp) merge(a, b *disjunct) *disjunct {
 	}
 	da, db := a.clone(), b.clone()
 	da.facts, db.facts = fa, fb
-	for _, q := range fa {
-		if b.fkeys[q.Key()] || it.entails(db, q) {
-			m.addFact(q)
+	// facts present on both sides are kept for free; for the others only a bounded number of
+	// entailment attempts is made, shortest facts first (dropping a fact is always sound)
+	const maxTries = 32
+	tryKeep := func(fs []lin.Ineq, otherKeys map[string]bool, other *disjunct) {
+		var rest []lin.Ineq
+		for _, q := range fs {
+			k := q.Key()
+			if m.fkeys[k] {
+				continue
+			}
+			if otherKeys[k] {
+				m.addFact(q)
+				continue
+			}
+			rest = append(rest, q)
+		}
+		sort.SliceStable(rest, func(i, j int) bool { return len(rest[i].L.Vars()) < len(rest[j].L.Vars()) })
+		if len(rest) > maxTries {
+			rest = rest[:maxTries]
+		}
+		for _, q := range rest {
+			if it.entails(other, q) {
+				m.addFact(q)
+			}
 		}
 	}
-	for _, q := range fb {
-		if m.fkeys[q.Key()] {
-			continue
-		}
-		if it.entails(da, q) {
-			m.addFact(q)
-		}
-	}
+	tryKeep(fa, b.fkeys, db)
+	tryKeep(fb, a.fkeys, da)
 	// hull candidates for the pending atoms: bounds by each side's expression and small constants
 	for _, p := range pend {
 		cands := []lin.Ineq{lin.LE(p.at, p.la), lin.GE(p.at, p.la), lin.LE(p.at, p.lb), lin.GE(p.at, p.lb)}
